@@ -7,7 +7,7 @@ DhMismatch == [e \in E |-> IF e = "A" THEN <<1, 2>> ELSE <<2, 1>>]
 DhNone == [e \in E |-> <<>>]
 
 \* history variables (dh, last) only observe: hide them from the fingerprint
-View == <<sas, table, kern, net, nspi, trig, dups, loss>>
+View == <<sas, table, kern, net, nspi, trig, dups, loss, adv>>
 
 \* JSON image of ALL variables of the View (a non-injective projection would merge states while stitching paths).
 \* Message headers inside an IKE_SA record are functions of the record, so only <<x, mid, body>> is printed.
@@ -17,13 +17,13 @@ SaC(s) == [id |-> s, st |-> sas[s].st, init |-> sas[s].init, peer |-> sas[s].pee
            rekeying |-> sas[s].rekeying, deleting |-> sas[s].deleting, newSa |-> sas[s].newSa, pending |-> sas[s].pending,
            cookie |-> sas[s].cookie, keys |-> sas[s].keys, iv |-> sas[s].iv, group |-> sas[s].group]
 Proj == [sas |-> {SaC(s) : s \in DOMAIN sas}, table |-> table, kern |-> kern, net |-> net, nspi |-> nspi,
-         b |-> <<trig, dups, loss>>]
+         b |-> <<trig, dups, loss, adv>>]
 
 \* Edge dump for the replay binding.  TLC (one worker, breadth first) expands states in the order it discovered them, so the
 \* source of an edge is identified by an ordinal kept in a TLC register; Probe (a stuttering step on the View) gives every
 \* expanded state at least one edge, so the ordinal of a source = its rank among the discovered states that satisfy the
 \* state constraint.  (Validated once against a dump that printed the full source state.)
-Probe == UNCHANGED <<sas, table, kern, net, nspi, trig, dups, loss, dh>> /\ last' = [a |-> "Probe"]
+Probe == UNCHANGED <<sas, table, kern, net, nspi, trig, dups, loss, adv, dh>> /\ last' = [a |-> "Probe"]
 DumpNext == Next \/ Probe
 DumpSpec == Init /\ [][DumpNext]_vars
 SrcOrdinal ==
